@@ -9,7 +9,7 @@ from hypothesis import strategies as st
 
 from hv import comp
 from hv.base import ShardResult, Violation, quiet
-from hv.worlds import SITE_POOL, World, _hms
+from hv.worlds import SCHEDULE_IDS, SITE_POOL, World, _hms
 
 PROP = "C20"
 RULE = ("(a) component: time_in_range and the schedule functions built by time_range_schedules_from_file against the integer reference "
@@ -102,13 +102,13 @@ def st_run(draw) -> Dict[str, Any]:
         s = draw(st.one_of(st.integers(0, 86399), st.integers(64800, 86399), st.sampled_from([(start + k * dt) % 86400 for k in (0, 1, 5, 30)])))
         length = draw(st.sampled_from([dt, 2 * dt, 7 * dt - 1, 3600 * 4, 3600 * 9, 3600 * 20, 0, 60]))
         e = (s + length) % 86400
-        schedules.append([f"sh{i}", _hms(s), _hms(e), s - s % 1, e])
+        schedules.append([SCHEDULE_IDS[i], _hms(s), _hms(e), s - s % 1, e])
     bases = [{"id": f"b{i + 1}", "site": draw(site), "stalls": 2, "station": (f"bs{i + 1}" if draw(st.booleans()) else None), "fleets": []} for i in range(draw(st.integers(1, 2)))]
     stations = [{"id": "s1", "site": draw(site), "plugs": [["DCFC", 2, True]], "fleets": []}]
     for b in bases:
         if b["station"]:
             stations.append({"id": b["station"], "site": b["site"], "plugs": [["LEVEL_2", 2, False]], "fleets": []})
-    vehicles = [{"id": f"h{i}", "site": draw(site), "mech": "leaf_50", "soc": draw(st.sampled_from([0.5, 0.9])), "schedule": f"sh{i}",
+    vehicles = [{"id": f"h{i}", "site": draw(site), "mech": "leaf_50", "soc": draw(st.sampled_from([0.5, 0.9])), "schedule": SCHEDULE_IDS[i],
                  "home_base": draw(st.sampled_from([b["id"] for b in bases])), "fleets": []} for i in range(nh)]
     vehicles += [{"id": f"a{i}", "site": draw(site), "mech": "leaf_50", "soc": 0.9, "schedule": None, "home_base": None, "fleets": []} for i in range(draw(st.integers(0, 2)))]
     every = draw(st.sampled_from([dt // 2 + 1, dt, 2 * dt + 7, 900]))
